@@ -93,6 +93,7 @@ def build_carrier(name, vals):
     if name == 'arr_str': return np.array([dec_str(v) for v in vals])
     if name == 'npstr': return np.str_(dec_str(vals[0]))
     if name == 'decimal': return Decimal(vals[0])
+    if name == 'list_dec_first': return [Decimal(vals[0])] + [float(v) for v in vals[1:]]      # (a Decimal first: the list takes the Python-object path)
     if name == 'decimal_long': return Decimal(vals[0])                  # (vals are decimal STRINGS with more digits than a double holds)
     if name == 'decimal_long_list': return [Decimal(v) for v in vals]
     if name == 'arr_obj': return np.array([int(v) if float(v) == int(v) else float(v) for v in vals], dtype=object)
